@@ -151,6 +151,8 @@ func (vc *VC) stdIntrinsic(fr *Frame, fn *ssa.Function, name string, args []SV, 
 		vc.assume(implies(inRange, and(eq("(unixsec "+t+")", sec), "(> "+t+" 0.0)")))
 		vc.assume(implies(inRange, "(forall ((a!q Real)) (! (and (=> (bvslt (unixsec a!q) "+sec+") (< a!q "+t+")) (=> (bvsgt (unixsec a!q) "+sec+") (> a!q "+t+")) (=> (and (= (unixsec a!q) "+sec+") (= "+nsec+" (_ bv0 64))) (>= a!q "+t+"))) :pattern ((unixsec a!q))))"))
 		return []SV{scalar(t)}, true
+	case "(time.Duration).Nanoseconds":
+		return []SV{args[0]}, true
 	case "(time.Time).UnixNano":
 		vc.declareUF("unixnano", "(Real) (_ BitVec 64)")
 		return []SV{scalar("(unixnano " + args[0].L[0] + ")")}, true
